@@ -856,5 +856,6 @@ theorem runFrom_counts (r : Role) (l : List Ev) (q q' : Q) (h : runFrom q l = so
       have h1 := step_counts r q q1 e hs
       have h2 := ih q1 h
       simp only [List.countP_cons]
-      split at h1 <;> split at h1 <;> simp_all <;> omega
+      by_cases hc : isConnTrue r e = true <;> by_cases hr : isRelease r e = true <;>
+        simp only [hc, hr, if_true, if_false, Bool.false_eq_true] at h1 ⊢ <;> omega
 end NfcVerif.Clf
